@@ -248,7 +248,7 @@ fn run_scenario(scn: &Scenario, seed: u64, index: u64, timeout: Duration) -> Out
             std::thread::sleep(Duration::from_millis(8)); // let delayed sends fire into running and ending sessions
             if scn.shutdown {
                 let mut e = executor.clone();
-                e.shutdown();
+                let _ = std::panic::catch_unwind(std::panic::AssertUnwindSafe(move || e.shutdown()));
             }
             let mut ss = sessions.lock().unwrap();
             for s in ss.iter() {
@@ -558,6 +558,173 @@ fn confirm_d_d(_table: &Table) -> Result<Vec<vs::DeadlockReport>, String> {
     Ok(found)
 }
 
+
+// ---------------------------------------------------------------------------------------------
+// tour: single sessions that walk through as many lock sites as possible (held-set check only)
+
+fn tour_doc(dm: &str) -> String {
+    let (len_arr, call) = if dm == "ecmascript" { ("arr.length", "twice(2)") } else { ("length(arr)", "twice(2)") };
+    let script = if dm == "ecmascript" { "x = x + 1" } else { "x = x + 1" };
+    format!(
+        "<scxml {NS} datamodel=\"{dm}\" initial=\"a\" name=\"tour\">\
+         <datamodel><data id=\"x\" expr=\"1\"/><data id=\"arr\" expr=\"[1,2,3]\"/><data id=\"s\" expr=\"'abc'\"/>\
+          <data id=\"t\"/><data id=\"u\" expr=\"'1ms'\"/><data id=\"ty\" expr=\"'scxml'\"/></datamodel>\
+         <state id=\"a\">\
+          <onentry>\
+           <raise event=\"r1\"/>\
+           <log label=\"l\" expr=\"x + 1\"/>\
+           <assign location=\"x\" expr=\"arr[0] + {len_arr}\"/>\
+           <assign location=\"t\" expr=\"!(x == 2)\"/>\
+           <assign location=\"t\" expr=\"{call}\"/>\
+           <if cond=\"arr == arr\"><raise event=\"r2\"/><else/><raise event=\"r2b\"/></if>\
+           <if cond=\"[1] == [1]\"><raise event=\"r3\"/></if>\
+           <foreach array=\"arr\" item=\"it\" index=\"ix\"><assign location=\"x\" expr=\"x + it\"/></foreach>\
+           <script>{script}</script>\
+           <send event=\"e1\"><param name=\"p1\" expr=\"x\"/><param name=\"p2\" location=\"s\"/></send>\
+           <send event=\"e2\" namelist=\"x s\"/>\
+           <send event=\"e3\"><content expr=\"x\"/></send>\
+           <send event=\"e4\" delayexpr=\"u\" typeexpr=\"ty\" idlocation=\"t\"/>\
+           <send event=\"e5\" type=\"nonexistent\"/>\
+           <send event=\"e6\" target=\"#_scxml_xyz\"/>\
+           <send event=\"e7\" target=\"#_nokid\"/>\
+           <send event=\"e8\" target=\"#_internal\"/>\
+           <send event=\"e9\" target=\"#_internal\" delay=\"1ms\"/>\
+           <send event=\"e10\" delayexpr=\"nosuchvar\"/>\
+           <assign location=\"nosuch.q\" expr=\"1\"/>\
+           <cancel sendidexpr=\"t\"/>\
+          </onentry>\
+          <transition event=\"e1\" cond=\"In('a')\" target=\"b\"/>\
+         </state>\
+         <parallel id=\"b\">\
+          <state id=\"b1\" initial=\"b1a\"><state id=\"b1a\"><transition event=\"e2\" target=\"b1f\"/></state>\
+           <final id=\"b1f\"><donedata><content expr=\"x\"/></donedata></final></state>\
+          <state id=\"b2\" initial=\"b2f\"><final id=\"b2f\"><donedata><param name=\"q\" expr=\"x\"/></donedata></final></state>\
+          <transition event=\"done.state.b\" target=\"c\"/>\
+          <transition event=\"e3\" target=\"c\"/>\
+         </parallel>\
+         <state id=\"c\" initial=\"c1\">\
+          <history id=\"ch\" type=\"shallow\"><transition target=\"c1\"/></history>\
+          <history id=\"cd\" type=\"deep\"><transition target=\"c1\"/></history>\
+          <state id=\"c1\"><transition event=\"e3\" target=\"d\"/><transition event=\"e4\" target=\"d\"/></state>\
+          <state id=\"c2\"/>\
+         </state>\
+         <state id=\"d\"><transition event=\"e4\" target=\"ch\"/><transition event=\"back\" target=\"cd\"/>\
+          <transition event=\"stop\" target=\"end\"/></state>\
+         <final id=\"end\"/></scxml>"
+    )
+}
+
+fn null_doc() -> String {
+    format!(
+        "<scxml {NS} datamodel=\"null\" initial=\"a\"><state id=\"a\"><transition event=\"e\" cond=\"In('a')\" target=\"b\"/></state>\
+         <state id=\"b\"><transition event=\"stop\" target=\"end\"/></state><final id=\"end\"/></scxml>"
+    )
+}
+
+fn src_invoker_doc(path: &str) -> String {
+    format!(
+        "<scxml {NS} datamodel=\"rfsm-expression\" initial=\"s1\">\
+         <datamodel><data id=\"w\" expr=\"5\"/><data id=\"loc\"/></datamodel>\
+         <state id=\"s1\"><invoke src=\"{path}\" idlocation=\"loc\" namelist=\"w\"><param name=\"peer\" expr=\"w\"/></invoke>\
+          <invoke typeexpr=\"'scxml'\" srcexpr=\"'{path}'\" id=\"k2\" autoforward=\"true\"><finalize><assign location=\"w\" expr=\"w + 1\"/></finalize></invoke>\
+          <transition event=\"stop\" target=\"end\"/></state><final id=\"end\"/></scxml>"
+    )
+}
+
+struct Twice;
+impl rufsm::actions::Action for Twice {
+    fn execute(&self, arguments: &[Data], _global: &rufsm::fsm::GlobalData) -> Result<Data, String> {
+        match arguments.first() {
+            Some(Data::Integer(i)) => Ok(Data::Integer(2 * i)),
+            Some(Data::Double(d)) => Ok(Data::Double(2.0 * d)),
+            _ => Ok(Data::Integer(0)),
+        }
+    }
+    fn get_copy(&self) -> Box<dyn rufsm::actions::Action> {
+        Box::new(Twice)
+    }
+}
+
+fn join_with_timeout(s: &mut Sess, ms: u64) -> bool {
+    let t0 = Instant::now();
+    if let Some(h) = s.thread.take() {
+        while !h.is_finished() {
+            if t0.elapsed() > Duration::from_millis(ms) {
+                return false;
+            }
+            std::thread::sleep(Duration::from_millis(1));
+        }
+        let _ = h.join();
+    }
+    true
+}
+
+fn run_tour(table: &Table, model: &mut Model, rep: &mut Report, seen: &mut Seen, confirmed: &mut BTreeMap<String, u64>) {
+    let dir = std::env::temp_dir().join(format!("c17-tour-{}", std::process::id()));
+    let _ = std::fs::create_dir_all(&dir);
+    let child = dir.join("child.scxml");
+    let _ = std::fs::write(&child, peer_doc("rfsm-expression"));
+    let mut docs: Vec<(String, String, Vec<&str>)> = vec![
+        ("tour rfsm-expression".into(), tour_doc("rfsm-expression"), vec!["back", "e4", "stop"]),
+        ("tour ecmascript".into(), tour_doc("ecmascript"), vec!["back", "e4", "stop"]),
+        ("null datamodel".into(), null_doc(), vec!["e", "stop"]),
+        ("invoke by src".into(), src_invoker_doc(child.to_str().unwrap_or("")), vec!["fwd", "stop"]),
+        ("peer ecmascript".into(), peer_doc("ecmascript"), vec!["self", "later", "cancel", "stop"]),
+        ("invoker ecmascript".into(), invoker_doc("ecmascript", 1, true), vec!["go", "abort", "stop"]),
+    ];
+    for (name, xml, events) in docs.drain(..) {
+        rep.evaluations += 1;
+        vs::reset();
+        let before = vs::deadlocks().len();
+        let mut executor = FsmExecutor::new_without_io_processor();
+        let mut opts = std::collections::HashMap::new();
+        opts.insert("datamodel:x", "1".to_string());
+        executor.set_global_options_from_arguments(&opts);
+        let mut actions = ActionWrapper::new();
+        actions.add_action("twice", Box::new(Twice));
+        let _ = actions.get_map_copy();
+        match start_session(&xml, &executor, &actions, &[], false) {
+            Err(e) => {
+                rep.disagree(json!({"what": "tour document rejected by the reader", "doc": name, "error": e}));
+                continue;
+            }
+            Ok(mut s) => {
+                // the peer documents need a peer that exists (an unknown session id is `todo!()` in
+                // FsmExecutor::send_to_session, property C12): every tour session is its own peer
+                let _ = s.sender.send(ev_peer(s.id));
+                std::thread::sleep(Duration::from_millis(15));
+                for e in events {
+                    let _ = executor.send_to_session(s.id, Event::new_simple(e));
+                    std::thread::sleep(Duration::from_millis(3));
+                }
+                let _ = s.sender.send(ev(EVENT_CANCEL_SESSION));
+                let done = join_with_timeout(&mut s, 5000);
+                executor.remove_session(s.id);
+                let mut ex2 = executor.clone();
+                if std::panic::catch_unwind(std::panic::AssertUnwindSafe(move || ex2.shutdown())).is_err() {
+                    rep.count("tour_shutdown_panicked");
+                }
+                std::thread::sleep(Duration::from_millis(5));
+                let snap = vs::snapshot();
+                check_snapshot(table, &snap, model, rep, &name, seen);
+                let all = vs::deadlocks();
+                let out = Outcome { finished: done, sessions: 1, deadlocks: all[before.min(all.len())..].to_vec(), blocked: if done { vec![] } else { vs::blocked() }, errors: vec![] };
+                rep.count(if done { "tour_finished" } else { "tour_hung" });
+                report_deadlocks(table, &out, rep, json!({"tour": name}), confirmed);
+            }
+        }
+    }
+    // host-side API that takes locks
+    vs::reset();
+    rufsm::fsm::register_datamodel("c17-null", Box::new(rufsm::datamodel::NullDatamodelFactory {}));
+    let mut q: rufsm::fsm::BlockingQueue<u32> = Default::default();
+    q.enqueue(7);
+    let _ = q.dequeue();
+    let snap = vs::snapshot();
+    check_snapshot(table, &snap, model, rep, "host api", seen);
+    let _ = std::fs::remove_dir_all(&dir);
+}
+
 // ---------------------------------------------------------------------------------------------
 
 pub fn run(args: &Args, model: &mut Model, table: &Table, rep: &mut Report) {
@@ -583,6 +750,7 @@ pub fn run(args: &Args, model: &mut Model, table: &Table, rep: &mut Report) {
     for c in ["E>P>E", "G>P>G", "D>D"] {
         run_confirmation(c, table, model, rep, &mut seen, &mut confirmed);
     }
+    run_tour(table, model, rep, &mut seen, &mut confirmed);
     // generated stress scenarios
     let n = if args.thorough { 1500 } else { 120 };
     let budget = Duration::from_secs(if args.thorough { 600 } else { 60 });
